@@ -185,6 +185,10 @@ class ExprMixin:
                 for c, v in zip(reversed(conds[:-1]), reversed(vals[:-1])):
                     cur = sv_ite(c, v, cur)
                 return cur
+            if prop is None and pnode is None and self.field_type(attr) is None:
+                meth = self.find_method(base.ty.cls, attr)
+                if meth is not None:
+                    return SV(Ty("func"), [], py=("boundm", base, attr))     # bound method value (x = obj.method)
             if prop is not None:
                 res = self.apply_contract(prop, [base], {}, st, exc, site="prop_" + attr)
                 if len(res) != 1:
